@@ -16,6 +16,10 @@ type handler func(line string) (v string, r string)
 
 var handlers = map[string]func(args []string) handler{}
 
+// protoOut is the buffered protocol output; a handler's watchdog may Flush it
+// before killing the process so that the results computed so far are not lost.
+var protoOut *bufio.Writer
+
 func safe(h handler, line string) (v, r string) {
 	defer func() {
 		if e := recover(); e != nil {
@@ -42,6 +46,7 @@ func main() {
 	in := bufio.NewScanner(os.Stdin)
 	in.Buffer(make([]byte, 1<<20), 1<<26)
 	out := bufio.NewWriterSize(os.Stdout, 1<<20)
+	protoOut = out
 	defer out.Flush()
 	for in.Scan() {
 		v, r := safe(h, in.Text())
